@@ -11,13 +11,13 @@ from vlib.workers import ALL, WorkerDied, WorkerSet
 
 PROPERTY = "C10"
 LEVEL = "exploration"
-RULE = ("Item trees over synthetic stack-item types (unwrap result: None / single item / tuple / list / @yields_frames "
+RULE = ("Item trees over synthetic stack-item types (unwrap result: None / single item / tuple / list / collections.deque / @yields_frames "
         "iterator / empty) whose frames come from a pool of 64 real frames with distinct code objects, each with a "
         "table-driven elaborate_frame result (None / PRUNE / [] / replacement by item(s) / raw frame + item / insertion "
-        "(item, next_inner) / bare next_inner), generated recursively by Hypothesis so that replacements and insertions "
+        "(item, next_inner) as list / tuple / deque / with an item that unwraps to nothing / bare next_inner), generated recursively by Hypothesis so that replacements and insertions "
         "bring sub-trees whose frames have hooks of their own. Balanced space: 2-4 wrappers side by side, each unwrapping directly to 1-3 frames (all equally deep; any simple hook or single-frame replacement; in a third of them an irreducible item may end any wrapper, not only the last - then, if no frame after it has a hook, the frames outward of it are compared as usual and of the rest only conservation is asserted: every frame and irreducible item still in Stack.frames or Stack.leaf). Core space: right-nested trees with single-item insertions "
         "(any hook anywhere). Order space: arbitrary nestings, None elements, multi-item and raw-frame insertions, with only "
-        "None/next_inner/insert hooks. Plus the fixpoint-guard family: self-returning item, 2-cycle, cycles that branch (the item itself twice as tuple / list / iterator; a 2-cycle with a doubling member), wrapper chains of "
+        "None/next_inner/insert hooks. Equivalence space (metamorphic): arbitrary nestings - also those whose exact outcome the documentation leaves open - with None / PRUNE / [] hooks, in which one hook-less frame answers next_inner, [next_inner] or (next_inner,): the result must equal the one with None. Plus the fixpoint-guard family (also 50 / 120 / 300 sibling items that unwrap to nothing followed by a frame: wide is not deep, no error): self-returning item, 2-cycle, cycles that branch (the item itself twice as tuple / list / iterator; a 2-cycle with a doubling member), wrapper chains of "
         "length 0..90 (must succeed) and >= 150 (must end with the 'unwrapped more than 100 times' error). A hook that answers with a list hands out its own stored list object, which must come back unchanged, and every fault-free tree is extracted a second time with the same result. Executed on "
         "CPython 3.9-3.12. Oracle: reference scope model (frames and leaf equal, error is None). Non-trivial: >= 1 frame that "
         "appears in the result has a non-None elaborate result (guard family: chain length >= 2 or a cycle); distinct = distinct IR.")
@@ -36,7 +36,9 @@ UNDEFINED = "UNDEFINED"
 
 # ------------------------------------------------------------------------------------ strategies
 
-SIMPLE_ELABS = [["none"]] * 6 + [["prune"], ["prune"], ["empty"], ["self"]]
+# insert_empty: the insert form with an item that unwraps to nothing in front of next_inner - adds no frame, but goes
+# through the whole "insert before the rest" path (which a bare next_inner, being documented as a no-op, does not)
+SIMPLE_ELABS = [["none"]] * 6 + [["prune"], ["prune"], ["empty"], ["self"], ["insert_empty"], ["insert_empty"]]
 
 
 def _seq(children, allow_leaf=True):
@@ -126,6 +128,8 @@ class Numberer:
         k = e[0]
         if k in ("none", "prune", "empty", "self"):
             return [k]
+        if k == "insert_empty":
+            return ["insert", [{"name": self.item_name(), "u": "empty", "ch": []}]]
         if self.nf >= KMAX - 8:
             return ["none"]
         if k in ("replace", "replace_tuple", "replace_deque", "insert", "insert_tuple", "insert_deque"):
